@@ -39,8 +39,9 @@ type c12GaugeDenom struct {
 
 type c12World struct {
 	*storWorld
-	gauges map[string]*c12Gauge // by gauge account address
-	order  []string
+	gauges    map[string]*c12Gauge // by gauge account address
+	backdated int
+	order     []string
 }
 
 const c12CheckWindow = 2
@@ -85,7 +86,15 @@ func (w *c12World) observeNewGauges(before map[string]storagetypes.PaymentGauge,
 		if _, existed := before[a]; existed {
 			continue
 		}
-		w.gauges[a] = &c12Gauge{Addr: a, Deposit: funded, Start: g.Start, End: g.End, Cum: c12Zero(), Inside: map[string]bool{}, Made: 1}
+		start := g.Start
+		if start.Before(w.f.Time()) {
+			// the deposit was made now: whatever the record says, the gauge's duration cannot have begun before there was
+			// anything to stream, so elapsed time is measured from the block of the deposit
+			w.logf("gauge %s is recorded as having started at %s, before the block of its deposit", a[:10], g.Start.Format(time.RFC3339Nano))
+			start = w.f.Time()
+			w.backdated++
+		}
+		w.gauges[a] = &c12Gauge{Addr: a, Deposit: funded, Start: start, End: g.End, Cum: c12Zero(), Inside: map[string]bool{}, Made: 1}
 		w.order = append(w.order, a)
 		w.logf("gauge %s created: recorded %s, funded %s, %s .. %s", a[:10], g.Coins, c12Show(funded), g.Start.Format(time.RFC3339Nano), g.End.Format(time.RFC3339Nano))
 	}
